@@ -1121,7 +1121,12 @@ Example node_slices_needs_no_arg_spacer :
     In x (tl (nodes t)) /\ epos x = Some 0%Z /\
     estr x = [92; 97; 123; 120; 125]%N /\
     slice s 0 (length (estr x)) = [92; 97; 32; 123; 120]%N.
-Proof. eexists. eexists. repeat split; try (vm_compute; reflexivity). left. reflexivity. Qed.
+Proof.
+  eexists. eexists. split; [vm_compute; reflexivity|].
+  split; [vm_compute; reflexivity|]. split; [vm_compute; reflexivity|].
+  split; [vm_compute; reflexivity|]. split; [vm_compute; reflexivity|].
+  split; [vm_compute; left; reflexivity|]. repeat split; vm_compute; reflexivity.
+Qed.
 
 (* the exception in the position theorems is real: the brace group made from
    a bare-token argument records -1, which is no offset (\textbf x) *)
